@@ -458,3 +458,70 @@ def _register():
 
 
 _register()
+
+
+# ------------------------------------------------------------------------------------------------
+# bounded native stand-ins for the whole-calculation clauses
+# ------------------------------------------------------------------------------------------------
+
+
+class SameMinimum:
+    """BOUNDED: every minimiser scheme and cg form reaches the same minimum within tolerance; restarting from a converged state converges
+    immediately to the same energy with at most the requested evaluations; small perturbations of the coefficients do not lower the energy."""
+
+    def __call__(self, ob, tier, seed):
+        import eminus
+        from eminus import SCF, Atoms
+        from eminus.energies import get_E
+
+        from pycv.framework import BOUNDED_OK
+
+        eminus.config.backend = "numpy"
+        eminus.config.verbose = "critical"
+        rng = np.random.default_rng(seed)
+        results = {}
+
+        def fresh(**kw):
+            at = Atoms("He", [0.1, 0.2, 0.3], ecut=4, a=[[6.0, 0.3, 0.1], [0.2, 6.5, 0.4], [0.5, 0.1, 7.0]])
+            return SCF(at, etol=1e-8, verbose="critical", **kw)
+
+        for name, opt, kw in (("sd", {"sd": 3000}, {}), ("pclm", {"pclm": 400}, {}), ("lm", {"lm": 1500}, {}), ("pccg", {"pccg": 200}, {}), ("cg", {"cg": 600}, {}), ("auto", {"auto": 200}, {}),
+                              ("pccg.cgform2", {"pccg": 200}, {"cgform": 2}), ("pccg.cgform3", {"pccg": 200}, {"cgform": 3}), ("pccg.cgform4", {"pccg": 200}, {"cgform": 4})):
+            scf = fresh(opt=opt)
+            e = scf.run(**kw)
+            results[name] = (float(e), bool(scf.is_converged))
+            if name == "pccg":
+                ref = scf
+        ebest = min(v[0] for v in results.values())
+        bad = {k: v for k, v in results.items() if (not v[1]) or abs(v[0] - ebest) > 5e-6}
+        if bad:
+            return Result(REFUTED, backend="native", witness=dict(seed=seed), replayed=True, replay_info=dict(energies=results),
+                          detail=f"minimisers disagree on the minimum (or do not converge): {bad} (lowest {ebest})")
+        # restart from the converged state: immediate convergence, same energy
+        e0 = ref.energies.Etot
+        ref.opt = {"pccg": 5}
+        e1 = ref.run()
+        n_eval = ref._opt_log["pccg"]["iter"]
+        if abs(e1 - e0) > 1e-7 or not ref.is_converged or n_eval > 5:
+            return Result(REFUTED, backend="native", witness=dict(seed=seed), replayed=True, replay_info=dict(E=float(e0), restarted=float(e1), evaluations=int(n_eval)),
+                          detail=f"restart from a converged state: E {e0} -> {e1}, converged={ref.is_converged}, {n_eval} evaluations")
+        # local minimum
+        W0 = [np.array(w) for w in ref.W]
+        worst = 0.0
+        for _ in range(8):
+            ref.W = [w + 1e-4 * (rng.standard_normal(w.shape) + 1j * rng.standard_normal(w.shape)) * np.linalg.norm(w) / np.sqrt(w.size) for w in W0]
+            ref._precompute()
+            worst = min(worst, float(get_E(ref) - e1))
+        if worst < -1e-9:
+            return Result(REFUTED, backend="native", witness=dict(seed=seed), replayed=True, replay_info=dict(lowering=worst), detail=f"a small perturbation lowers the converged energy by {-worst:.2e}")
+        return Result(BOUNDED_OK, backend="native", stats=dict(energies={k: v[0] for k, v in results.items()}),
+                      detail=f"bounded: sd / lm / pclm / cg / pccg (cgform 1-4) / auto reach the same minimum within 5e-6 Eh (He, triclinic cell); restart converges at once; no perturbation lowers E (worst {worst:.1e})")
+
+    def replay(self, wit):
+        r = self(None, "quick", wit.get("seed", 0))
+        return r.verdict == REFUTED, dict(detail=r.detail)
+
+
+register(Obligation(name="C14.minimisers.same_minimum_restart_local_minimum", prop=PROP, engine="B", bounded=True, run=SameMinimum(), budget={"quick": 600, "thorough": 1200},
+                    functions=["eminus.minimizer:sd", "eminus.minimizer:lm", "eminus.minimizer:pclm", "eminus.minimizer:cg", "eminus.minimizer:pccg", "eminus.minimizer:auto", "eminus.scf:SCF.run"],
+                    doc="BOUNDED: all schemes / cg forms reach the same minimum; a restart from the converged state converges immediately; the minimum is local (He, triclinic cell)"))
